@@ -147,7 +147,7 @@ fn resign(
     elems.iter().map(|e| map.get(e).cloned().unwrap_or_else(|| e.clone())).collect()
 }
 
-fn mutate(rng: &mut Rng, w: &[Vec<u8>], pool: &[Vec<u8>]) -> Vec<Vec<u8>> {
+pub fn mutate(rng: &mut Rng, w: &[Vec<u8>], pool: &[Vec<u8>]) -> Vec<Vec<u8>> {
     let mut w = w.to_vec();
     let steps = 1 + rng.below(3);
     for _ in 0..steps {
